@@ -156,7 +156,14 @@ def units(tier, seed):
             merged.append(u)
     if small:
         merged.append({"kind": "multi", "units": small})
-    return merged
+    # one unit of every sub-check first (evidence samples are taken in unit order)
+    front, seen_kinds = [], set()
+    for u in merged:
+        k = u["kind"] if u["kind"] != "stopper" else "stopper-" + u["mode"]
+        if k not in seen_kinds:
+            seen_kinds.add(k)
+            front.append(u)
+    return front + [u for u in merged if not any(u is f for f in front)]
 
 
 # ---------------------------------------------------------------------------------
